@@ -341,7 +341,7 @@ func (e *explorer) transition(hist []uint8, op int, idx int64, alsoProgram bool)
 			e.r.Sample(map[string]any{"history": k.Src, "model": res.pred.String(), "got": res.got, "features": featString(res.pred.feats)})
 		}
 	}
-	if changed {
+	if changed && !e.ops[op].leaf {
 		e.mu.Lock()
 		e.cands = append(e.cands, cand{idx: idx, key: hashKey(res.postKey)})
 		e.mu.Unlock()
